@@ -60,6 +60,12 @@ Definition r_setitem {A} (xs : list A) (i : Z) (v : A) : R (list A) :=
 Definition c_getitem {A} (xs : list A) (i : Z) : R A :=
   if i <? 0 then Exc else of_opt (nth_error xs (Z.to_nat i)).
 
+(** [p[lo:hi]] on a C array reached through cffi: the elements lo .. hi-1, defined only when they are
+    all inside the array ([0 <= lo <= hi <= length]); anything else is the error value *)
+Definition c_slice {A} (xs : list A) (lo hi : Z) : R (list A) :=
+  if (0 <=? lo) && (lo <=? hi) && (hi <=? Z.of_nat (List.length xs))
+  then Val (firstn (Z.to_nat (hi - lo)) (skipn (Z.to_nat lo) xs)) else Exc.
+
 (** [xs[i:]] for a literal [i >= 0] *)
 Definition py_slice_from {A} (xs : list A) (i : Z) : list A := skipn (Z.to_nat i) xs.
 
